@@ -67,11 +67,11 @@ func (c05) Budget(tier string) runner.Budget {
 
 func (c05) Describe() runner.Description {
 	return runner.Description{
-		Rule:        "each plan: a seeded tree of 2..12 valid blocks (<=3 siblings per parent; different/equal TotalQN, higher/lower/equal prove value, with and without transfer transactions, siblings sharing transactions) generated with the node's own cast/verify/assemble API, then delivered to a fresh node in a seeded order with duplicates, orphans-before-parents, re-deliveries and restarts; in about a third of the plans one branch arrives through the sync path instead (a fork store rooted at the common ancestor, every block verified and executed on the fork, then merged: blockChainFork.triggerOnChain), as one delivery; the deliveries between two restarts run as one task of the seeded scheduler, so that a goroutine the node starts while handling a delivery is a task interleaved with the following deliveries. evaluations = invariant evaluations: after every delivery on the live node, and - fault enumeration - on a new incarnation booted from the disk image after EVERY individual store write of every delivery that wrote (exhaustive per plan). Invariant: head reachable from genesis by parent links; height index = that chain (cache bypassed and cached); nothing indexed above the head; verify-hash exactly up to the head; persisted head record = head; head state opens and fully resolves; no add/remove mark at quiescence; without crash the head only moves to a chain of not-lower weight (TotalQN, then prove value, then hash at the fork point); after a crash inside a head change the head is the old head, the new head or a common ancestor; transactions of canonical blocks are executed with a receipt naming their canonical block, those of removed blocks are not executed and (live) pending again; after the crash the restarted node accepts a valid extension of its head. distinct_nontrivial = distinct (tree shape, delivery order, crash index) triples whose delivery changed the head.",
+		Rule:        "each plan: a seeded tree of 2..12 valid blocks (<=3 siblings per parent; different/equal TotalQN, higher/lower/equal prove value, with and without transfer transactions, siblings sharing transactions) generated with the node's own cast/verify/assemble API, then delivered to a fresh node in a seeded order with duplicates, orphans-before-parents, re-deliveries and restarts; in about a third of the plans one branch arrives through the sync path instead (a fork store rooted at the common ancestor, every block verified and executed on the fork, then merged: blockChainFork.triggerOnChain), as one delivery; the deliveries between two restarts run as one task of the seeded scheduler, so that a goroutine the node starts while handling a delivery is a task interleaved with the following deliveries. evaluations = invariant evaluations: after every delivery on the live node, and - fault enumeration - on a new incarnation booted from the disk image after EVERY individual store write of every delivery that wrote (exhaustive per plan). For a sixth of the crash images the restart's own repair writes are crash points too (a second process death during recovery). Invariant: head reachable from genesis by parent links; height index = that chain (cache bypassed and cached); nothing indexed above the head; verify-hash exactly up to the head; persisted head record = head; head state opens and fully resolves; no add/remove mark at quiescence; without crash the head only moves to a chain of not-lower weight (TotalQN, then prove value, then hash at the fork point); after a crash inside a head change the head is the old head, the new head or a common ancestor; transactions of canonical blocks are executed with a receipt naming their canonical block, those of removed blocks are not executed and (live) pending again; after the crash the restarted node accepts a valid extension of its head. distinct_nontrivial = distinct (tree shape, delivery order, crash index) triples whose delivery changed the head.",
 		Assumptions: []string{"stub ConsensusHelper accepts group signatures / VRF (judged by C13-C16)", "crash = process death after a completed store write (no torn or lost writes)", "the pending pool is memory-only by design, so 'pending again' is asserted on the live node and for the block the restart rolls back"},
 		Real:        []string{"core/blockchain*.go (add, insert, remove, consistency repair, fork choice, verify, cast)", "service tx pool + executed store", "core/vmexecutor + executors (transfers, rewards, refunds)", "storage/account + trie on real goleveldb over simulated storage", "types wire codecs (block records)"},
 		Stub:        []string{"ConsensusHelper", "network / sync processor (not started; its fork-store merge is driven directly)", "NTP clock"},
-		FaultKinds:  []string{"crash_after_store_write", "restart", "duplicate_delivery", "orphan_first", "reorg", "sync_merge"},
+		FaultKinds:  []string{"crash_after_store_write", "restart", "duplicate_delivery", "orphan_first", "reorg", "sync_merge", "crash_during_recovery"},
 		Exhaustive:  true,
 	}
 }
@@ -780,7 +780,15 @@ func (c05) Exec(raw json.RawMessage, st *simrt.Stats, log *simrt.Log) *simrt.Vio
 	// fault enumeration: crash after write k of delivery ev, restart
 	var deferred *simrt.Violation
 	for _, im := range images {
+		// the restart's own store writes (the repair of a half-done insertion or removal: a clean boot writes
+		// nothing) are crash points too, for a sixth of the images
+		var recovery []*simdisk.Disk
+		if (p.Seed+uint64(im.ev*31+im.k))%6 == 0 {
+			imd := im.disk
+			node.BootOnWrite = func(idx int, kind string) { recovery = append(recovery, imd.Clone()) }
+		}
 		rn := node.Boot(im.disk, forks, false)
+		node.OnWrite = nil
 		st.Fault("crash_after_store_write")
 		when := "restart-after-crash"
 		if v := c05Structure(rn, k, im.ev, when, false); v != nil {
@@ -836,9 +844,44 @@ func (c05) Exec(raw json.RawMessage, st *simrt.Stats, log *simrt.Log) *simrt.Vio
 				break
 			}
 		}
+		if len(recovery) > 0 {
+			if v := c05SecondCrash(recovery, forks, k, im.ev, im.old, im.new, st, fmt.Sprintf("crash after store write %d of %d of delivery %d", im.k, im.w, im.ev)); v != nil {
+				return v
+			}
+		}
 	}
 	st.State(simrt.HashString(shape))
 	return deferred
+}
+
+// c05SecondCrash boots the images taken during a restart's own repair writes: the process died again.
+func c05SecondCrash(recovery []*simdisk.Disk, forks node.Forks, k *c05Known, ev int, old, new common.Hash, st *simrt.Stats, desc string) *simrt.Violation {
+	for j, d2 := range recovery {
+		rn2 := node.Boot(d2, forks, false)
+		st.Fault("crash_during_recovery")
+		if v := c05Structure(rn2, k, ev, "restart-after-second-crash", false); v != nil {
+			v.Detail += fmt.Sprintf(" (%s, then a second crash after repair write %d of %d of the restart)", desc, j+1, len(recovery))
+			return v
+		}
+		st.Evaluations++
+		h := rn2.Chain.TopBlock().Hash
+		ok := h == old
+		for _, x := range k.ancestors(new) {
+			if x == h {
+				ok = true
+			}
+		}
+		inOld := false
+		for _, x := range k.ancestors(old) {
+			if x == h {
+				inOld = true
+			}
+		}
+		if !ok && !inOld {
+			return simrt.Violationf("C05", "head-after-crash", "not-old-new-or-common-ancestor", ev, "%s, then a second crash after repair write %d of %d of the restart: the head is %x; old head %x, new head %x", desc, j+1, len(recovery), h.Bytes()[:6], old.Bytes()[:6], new.Bytes()[:6])
+		}
+	}
+	return nil
 }
 
 func (c05) Shrink(raw json.RawMessage) []json.RawMessage {
